@@ -73,7 +73,7 @@ def native_validate(ck, results, per_job=4):
         for i, smp in enumerate(r.samples[:per_job]):
             path = os.path.join(driver.BUILD, 'nv_%s_%d_%d.txt' % (r.entry, os.getpid(), i))
             driver.write_replay(path, smp['inputs'])
-            rc, out, err = driver.run_native(exe, r.entry, path, {k: v for k, v in r.params.items() if isinstance(v, int)})
+            rc, out, err = driver.run_native(exe, r.entry, path, {k: v for k, v in r.params.items() if isinstance(v, int)}, assert_filter=r.job.get('assert_filter'))
             ck.tv_cases += 1
             nat_reach = [l.split(' ', 1)[1] for l in out.splitlines() if l.startswith('REACH ')]
             sym_reach = [x for x in smp.get('reached', nat_reach) if x != 'raw-tables-read']       # (the raw-table reader only runs on the model)
